@@ -160,6 +160,16 @@ static PATH_COUNTER: std::sync::atomic::AtomicUsize = std::sync::atomic::AtomicU
 /// reads. Returns a description of the first difference.
 pub fn path_roundtrip_check(m: &rosu_map::Beatmap, text: &str) -> Option<String> {
     let n = PATH_COUNTER.fetch_add(1, std::sync::atomic::Ordering::Relaxed);
+    // the encoded text read back through a reader that hands out one, two or seven bytes at a time
+    {
+        use rosu_map::DecodeBeatmap;
+        let want = rosu_map::from_bytes::<rosu_map::Beatmap>(text.as_bytes()).ok().map(|m| format!("{m:?}"));
+        let cap = [1usize, 2, 7][n % 3];
+        let got = rosu_map::Beatmap::decode(std::io::BufReader::with_capacity(cap, text.as_bytes())).ok().map(|m| format!("{m:?}"));
+        if got != want {
+            return Some(format!("the encoded text decodes differently through a BufReader of capacity {cap} than through from_bytes"));
+        }
+    }
     // a legal `Write` that takes at most `k` bytes per call must receive the same bytes as a `Vec`
     {
         struct Short(usize, Vec<u8>);
